@@ -410,7 +410,8 @@ class Agent(dbus.service.Object):
             try:
                 if step.action(ctr):
                     self._logger.debug('Step %5.1f interrupted the chain', step.order)
-                    break
+                    # the step has taken over transmission (e.g. as fragments)
+                    return
             except Exception as err:
                 self._logger.error('Step %5.1f failed with exception: %s', step.order, err)
                 self._logger.debug('%s', traceback.format_exc())
